@@ -37,3 +37,22 @@ Print Assumptions C03_retained.
    snapshot is rejected by the acceptor *)
 Example C03_run_accepted : accept_all init_pl run1 <> None.
 Proof. rewrite run1_accepted. discriminate. Qed.
+
+(* ---- the engine model: a transaction leaves every page of the PREVIOUS committed state untouched, so a reader of the previous
+   header reads, on the disk after the commit, exactly what it read before (the latest snapshot; snapshots pinned across several
+   commits are the page-lifecycle theorems above: the engine model has no reader registry) ---- *)
+From Jamm Require Bytes Engine EngineAbs EnginePathFacts EngineRefines EngineOwnDefs EngineOwnSpill EngineCow.
+Theorem C03_engine_previous_snapshot_intact : forall (st : Engine.db) (ops : list Engine.op) (ord : list Bytes.bytes) (st' : Engine.db),
+  EngineOwnSpill.db_okz st -> Forall (EnginePathFacts.op_ok (Engine.d_disk st)) ops ->
+  Engine.run_tx st ops ord = Engine.Ok st' ->
+  (forall p : N, In p (EngineRefines.live_of st (EngineOwnDefs.Rof st)) ->
+     Engine.dget (Engine.d_disk st') p = Engine.dget (Engine.d_disk st) p) /\
+  (forall p : N, In p (EngineOwnDefs.Rof st) -> Engine.dget (Engine.d_disk st') p = Engine.dget (Engine.d_disk st) p) /\
+  EngineOwnDefs.fpg 16 (Engine.d_disk st') (Engine.d_root st) = EngineOwnDefs.Rof st /\
+  EngineOwnDefs.runs (Engine.d_disk st') (EngineOwnDefs.fpg 16 (Engine.d_disk st') (Engine.d_root st)) =
+    EngineOwnDefs.runs (Engine.d_disk st) (EngineOwnDefs.Rof st) /\
+  (forall n : nat, EngineAbs.abs_bucket n (Engine.d_disk st') (Engine.d_root st) (Engine.d_next st) =
+                   EngineAbs.abs_bucket n (Engine.d_disk st) (Engine.d_root st) (Engine.d_next st)) /\
+  EngineAbs.abs_bucket 16 (Engine.d_disk st') (Engine.d_root st) (Engine.d_next st) = EngineAbs.abs_db st.
+Proof. exact EngineCow.old_snapshot_intact. Qed.
+Print Assumptions C03_engine_previous_snapshot_intact.
